@@ -141,7 +141,7 @@ func VerifRoutes() {
 	if len(changes) == 0 {
 		vf.Cover("no change reported")
 	}
-	for _, c := range changes {
+	step := func(c string) {
 		model.exec(c)
 		// C14: a destination routed before and after stays routed
 		for d := 0; d < len(verifDst); d++ {
@@ -151,13 +151,34 @@ func VerifRoutes() {
 				"C14: Linux: a destination that has a route before and after the change has none at an intermediate step")
 		}
 	}
+	lbl := "C05"
+	k := len(changes)
+	if vf.Param("cut", "0") == "1" {
+		// the approve is cut off after k commands and run again
+		lbl = "C10"
+		k = vf.Int("cut", 0, len(changes))
+	}
+	for _, c := range changes[:k] {
+		step(c)
+	}
+	if lbl == "C10" {
+		vf.Cover("resumed after cut")
+		var linesCut []string
+		for _, r := range model.routes {
+			linesCut = append(linesCut, "ip route add "+verifShowLine(r, 0))
+		}
+		for _, c := range diffRoutes(parseRoutes(linesCut), parseRoutes(bLines)) {
+			vf.Note("CHG2:", c)
+			step(c)
+		}
+	}
 	// end state: exactly the target's routes
-	vf.Assert(len(model.routes) == len(B), "C05: number of active routes after the script differs from the target")
+	vf.Assert(len(model.routes) == len(B), lbl+": number of active routes after the script differs from the target")
 	for _, r := range B {
-		vf.Assert(model.has(r), "C05: a target route is missing after the script")
+		vf.Assert(model.has(r), lbl+": a target route is missing after the script")
 	}
 	for _, r := range model.routes {
-		vf.Assert((&verifRouteModel{routes: B}).has(r), "C05: a route that is not in the target is still active after the script")
+		vf.Assert((&verifRouteModel{routes: B}).has(r), lbl+": a route that is not in the target is still active after the script")
 	}
 	// second compare on what the device prints now
 	var lines2 []string
@@ -165,7 +186,7 @@ func VerifRoutes() {
 		lines2 = append(lines2, "ip route add "+verifShowLine(r, 0))
 	}
 	if len(diffRoutes(parseRoutes(lines2), parseRoutes(bLines))) != 0 {
-		vf.Assert(false, "C05: second compare of routes still reports changes")
+		vf.Assert(false, lbl+": second compare of routes still reports changes")
 	}
 }
 
